@@ -31,6 +31,7 @@ inductive Kind
   | exc         -- an `except name:` clause was entered
   | acquired | release    -- a `with` / `async with` on `name` was entered / left
   | del
+  | finEnter | finExit    -- a `finally:` block is entered / left
 deriving Repr, DecidableEq
 
 /-- a synchronous action (atomic under asyncio) -/
@@ -252,6 +253,21 @@ def isBranch (taken : Bool) (test : String) : Ev → Bool
   | .act a => a.kind == (if taken then Kind.brT else Kind.brF) && a.name == test
   | .aw _ => false
 
+/-- a resource obtained by an await: state 2 = the acquiring await has started (if it raises - e.g. it is cancelled - nothing was
+obtained), 1 = obtained (some action followed the await, so it returned) and not yet released, 0 = not held -/
+def resourceMon (acquire : Ev → Bool) (release : Ev → Bool) : Mon := fun s e =>
+  if release e then some 0
+  else if acquire e then some 2
+  else match e with
+    | .act _ => some (if s == 2 then 1 else s)
+    | .aw _ => some (if s == 2 then 1 else s)
+
+/-- however the coroutine ends - return, exception, cancellation at any of its awaits - it does not end holding the resource -/
+def releasedOnEveryExit (acquire release : Ev → Bool) (sk : Sk) : Bool :=
+  match scan (resourceMon acquire release) 4 sk [0] with
+  | none => false
+  | some r => (r.fall ++ r.brk ++ r.cont ++ r.ret ++ r.exc).all fun s => s == 0 || s == 2
+
 /-! ### "this piece of code never suspends" -/
 
 /-- number of suspension points in a skeleton -/
@@ -281,6 +297,26 @@ def isSelfState (s : String) : Bool := s.toList.take 5 == ['s', 'e', 'l', 'f', '
 
 /-- the attributes of `self` a coroutine assigns -/
 def selfStateWritten (sk : Sk) : List String := (actions .set sk).filter isSelfState
+
+/-- every await of a skeleton, in source order -/
+def awaitsIn : Sk → List String
+  | .ev (.aw n) => [n]
+  | .ev (.act _) => []
+  | .seq a b => awaitsIn a ++ awaitsIn b
+  | .alt a b => awaitsIn a ++ awaitsIn b
+  | .loop b => awaitsIn b
+  | .fin a b => awaitsIn a ++ awaitsIn b
+  | .tryExc a b => awaitsIn a ++ awaitsIn b
+  | _ => []
+
+/-- the awaits that stand INSIDE a `finally:` block (where a second cancellation can interrupt the clean-up) -/
+def finallyAwaits : Sk → List String
+  | .seq a b => finallyAwaits a ++ finallyAwaits b
+  | .alt a b => finallyAwaits a ++ finallyAwaits b
+  | .loop b => finallyAwaits b
+  | .fin a f => finallyAwaits a ++ awaitsIn f
+  | .tryExc a b => finallyAwaits a ++ finallyAwaits b
+  | _ => []
 
 /-! ### the event loop as an adversary -/
 
